@@ -655,6 +655,8 @@ def assemble(unit_path, repo, vf_dir):
                 ds = [d.strip() for d in m.group(1).split(',')]
                 ks = [d for d in ds if d in ('Clone', 'Copy') or d in keep.split(',')]
                 A.counts.hit('D9_derives_dropped', len(ds) - len(ks))
+                if 'PartialEq' in ks and 'Eq' in ks:
+                    ks.append('Structural')   # D9b: Verus' marker that the derived == is structural equality
                 return ('#[derive(%s)]\n' % ', '.join(ks)) if ks else ''
             text = re.sub(r'#\[derive\(([^)]*)\)\]\s*\n', fix_derive, text)
             text = re.sub(r'(?m)^[ \t]*#\[(non_exhaustive|cfg_attr[^\]]*)\]\s*\n', '', text)
